@@ -539,6 +539,44 @@ pub fn path_collision_trees() -> Vec<Value> {
     ]
 }
 
+/// Equal values side by side (the enumerated trees give every leaf a distinct marker on purpose; here
+/// siblings are deliberately identical): repeated elements and members with equal container values.
+pub fn equal_sibling_trees() -> Vec<Value> {
+    let base = |v: Value| json!({"iss": gen::ISS, "exp": gen::EXP, "a": v});
+    let mut out = vec![];
+    for v in [
+        json!([{"x": 1}, {"x": 1}]),
+        json!([{"x": 1}, {"x": 1}, {"x": 2}]),
+        json!([{"x": 2}, {"x": 1}, {"x": 1}]),
+        json!([[1], [1]]),
+        json!([[1, 2], [1, 2], [1]]),
+        json!([1, 1]),
+        json!([1, 1, 1]),
+        json!(["s", "s"]),
+        json!([null, null]),
+        json!([{}, {}]),
+        json!([[], []]),
+        json!([{"x": {"y": [1]}}, {"x": {"y": [1]}}]),
+        json!({"p": {"x": 1}, "q": {"x": 1}}),
+        json!({"p": [1, 2], "q": [1, 2]}),
+        json!({"p": 1, "q": 1}),
+        json!({"p": {"x": 1}, "q": [{"x": 1}], "r": {"x": 1}}),
+    ] {
+        out.push(base(v));
+    }
+    out.push(json!({"iss": gen::ISS, "exp": gen::EXP, "a": {"x": 1}, "b": {"x": 1}}));
+    out.push(json!({"iss": gen::ISS, "exp": gen::EXP, "a": [{"x": 1}], "b": [{"x": 1}]}));
+    out
+}
+
+/// Strings with a multi-byte character at every byte offset 0..=16 (fixed-offset byte slicing), plus a few
+/// media-type look-alikes.
+pub fn alignment_strings() -> Vec<String> {
+    let mut v: Vec<String> = (0..=16).map(|k| format!("{}\u{e9}\u{20ac}\u{1F600}", "a".repeat(k))).collect();
+    v.extend(["application\u{e9}", "application/kb+jwt", "application/sd+jwt", "APPLICATION/KB+JWT", "kb+jwt;v=1", "application/"].iter().map(|s| s.to_string()));
+    v
+}
+
 /// Single nested path of depth k; bit i of `pattern` says whether level i is an array (1) or object (0).
 pub fn chain(k: usize, pattern: u64) -> Value {
     let mut v = json!(7);
